@@ -42,9 +42,10 @@ func (g *Gen) definedOutside(li *loopInfo, v ssa.Value) bool {
 	return false
 }
 
-// loopWrites infers the set of object ids whose rows may be written in the loop.
-// ok=false means "unknown": the whole heap is havocked.
-func (g *Gen) loopWrites(li *loopInfo) (objs []string, allocs bool, ok bool, why string) {
+// loopWrites infers what the loop may write: regions (cell ranges of objects) where the target is an
+// element/field of a loop-invariant array, slice or pointer (bounds obligations keep accesses inside),
+// otherwise whole object rows. ok=false means "unknown": the whole heap is havocked.
+func (g *Gen) loopWrites(li *loopInfo) (objs []string, regions []region, allocs bool, ok bool, why string) {
 	ok = true
 	seen := map[string]bool{}
 	addRoot := func(v ssa.Value) {
@@ -67,11 +68,63 @@ func (g *Gen) loopWrites(li *loopInfo) (objs []string, allocs bool, ok bool, why
 		ok = false
 		why = fmt.Sprintf("store through %s defined inside the loop", r.Name())
 	}
+	addRegion := func(r region) {
+		k := r.obj + "|" + r.lo + "|" + r.hi
+		if !seen[k] {
+			seen[k] = true
+			regions = append(regions, r)
+		}
+	}
+	// addTarget: the cell(s) written through address v (a pointer value)
+	addTarget := func(v ssa.Value) {
+		switch a := v.(type) {
+		case *ssa.IndexAddr:
+			if g.definedOutside(li, a.X) {
+				bv := g.val(a.X)
+				switch u := a.X.Type().Underlying().(type) {
+				case *types.Pointer:
+					if arr, isArr := u.Elem().Underlying().(*types.Array); isArr {
+						n := int(arr.Len()) * g.lay.Size(arr.Elem())
+						addRegion(region{"*", bv.S[0], bv.S[1], addOff(bv.S[1], n), n})
+						return
+					}
+				case *types.Slice:
+					sz := g.lay.Size(u.Elem())
+					addRegion(region{"*", bv.S[0], bv.S[1], g.mulAdd(bv.S[1], bv.S[2], sz), -1})
+					return
+				}
+			}
+		case *ssa.FieldAddr:
+			if g.definedOutside(li, a.X) {
+				bv := g.val(a.X)
+				st := a.X.Type().Underlying().(*types.Pointer).Elem().Underlying().(*types.Struct)
+				off := addOff(bv.S[1], g.lay.FieldOff(st, a.Field))
+				n := g.lay.Size(st.Field(a.Field).Type())
+				addRegion(region{"*", bv.S[0], off, addOff(off, n), n})
+				return
+			}
+		default:
+			if g.definedOutside(li, v) {
+				if pt, isPtr := v.Type().Underlying().(*types.Pointer); isPtr {
+					bv := g.val(v)
+					n := g.lay.Size(pt.Elem())
+					addRegion(region{"*", bv.S[0], bv.S[1], addOff(bv.S[1], n), n})
+					return
+				}
+				if st, isSl := v.Type().Underlying().(*types.Slice); isSl {
+					bv := g.val(v)
+					addRegion(region{"*", bv.S[0], bv.S[1], g.mulAdd(bv.S[1], bv.S[2], g.lay.Size(st.Elem())), -1})
+					return
+				}
+			}
+		}
+		addRoot(v)
+	}
 	for b := range li.body {
 		for _, ins := range b.Instrs {
 			switch x := ins.(type) {
 			case *ssa.Store:
-				addRoot(x.Addr)
+				addTarget(x.Addr)
 			case *ssa.Alloc, *ssa.MakeSlice, *ssa.MakeMap, *ssa.MakeChan, *ssa.MakeInterface, *ssa.MakeClosure:
 				allocs = true
 			case *ssa.Go:
@@ -87,16 +140,17 @@ func (g *Gen) loopWrites(li *loopInfo) (objs []string, allocs bool, ok bool, why
 						why = "interface call without contract: " + cc.Method.FullName()
 						continue
 					}
-					g.callWrites(ct, cc, addRoot, &ok, &why, &allocs)
+					g.callWrites(ct, cc, addTarget, addRoot, &ok, &why, &allocs)
 					continue
 				}
 				if _, isB := cc.Value.(*ssa.Builtin); isB {
 					b := cc.Value.(*ssa.Builtin)
 					if b.Name() == "append" {
 						allocs = true
+						addRoot(cc.Args[0])
 					}
 					if b.Name() == "copy" {
-						addRoot(cc.Args[0])
+						addTarget(cc.Args[0])
 					}
 					continue
 				}
@@ -109,13 +163,13 @@ func (g *Gen) loopWrites(li *loopInfo) (objs []string, allocs bool, ok bool, why
 					why = "dynamic call " + cc.Value.Name()
 					continue
 				}
-				ct := g.eng.contractFor(callee)
+				ct := g.eng.contractForView(callee, g.view)
 				if ct == nil {
 					ok = false
 					why = "call of " + callee.String() + " (no contract)"
 					continue
 				}
-				g.callWrites(ct, cc, addRoot, &ok, &why, &allocs)
+				g.callWrites(ct, cc, addTarget, addRoot, &ok, &why, &allocs)
 			}
 		}
 	}
@@ -142,7 +196,7 @@ func baseIdent(e *Expr) string {
 	return ""
 }
 
-func (g *Gen) callWrites(ct *Contract, cc *ssa.CallCommon, addRoot func(ssa.Value), ok *bool, why *string, allocs *bool) {
+func (g *Gen) callWrites(ct *Contract, cc *ssa.CallCommon, addTarget, addRoot func(ssa.Value), ok *bool, why *string, allocs *bool) {
 	if ct.ModAny {
 		*ok = false
 		*why = "callee " + ct.Key + " modifies *"
@@ -157,7 +211,12 @@ func (g *Gen) callWrites(ct *Contract, cc *ssa.CallCommon, addRoot func(ssa.Valu
 		found := false
 		for i, n := range names {
 			if n == id && i < len(cc.Args) {
-				addRoot(cc.Args[i])
+				// "*p" / "p" with p a pointer or slice parameter: exactly the pointee / the elements
+				if m.E.Op == "id" || (m.E.Op == "deref" && m.E.Args[0].Op == "id") {
+					addTarget(cc.Args[i])
+				} else {
+					addRoot(cc.Args[i])
+				}
 				found = true
 			}
 		}
@@ -203,7 +262,7 @@ func (g *Gen) loopEntry(li *loopInfo, preds []*ssa.BasicBlock, conds []string) {
 	}
 	// 2. havoc
 	li.preHeap = copyMap(g.heap)
-	objs, allocs, ok, why := g.loopWrites(li)
+	objs, regions, allocs, ok, why := g.loopWrites(li)
 	preNext := g.nextobj
 	if !ok {
 		g.eng.note(g, fmt.Sprintf("loop %d: heap fully havocked (%s)", li.ordinal, why))
@@ -212,6 +271,9 @@ func (g *Gen) loopEntry(li *loopInfo, preds []*ssa.BasicBlock, conds []string) {
 		}
 		allocs = true
 	} else {
+		for _, r := range regions {
+			g.havocRegion(r)
+		}
 		for _, s := range g.sorts {
 			h := g.heap[s]
 			for _, o := range objs {
@@ -233,7 +295,7 @@ func (g *Gen) loopEntry(li *loopInfo, preds []*ssa.BasicBlock, conds []string) {
 	}
 	for k := range g.ghost {
 		if g.eng.ghostLoopHavoc(g, li, k) {
-			g.ghost[k] = g.freshConst("gh_"+k, g.eng.ghostSort(k))
+			g.ghost[k] = g.freshConst("gh_"+k, g.ghostSortOf(k))
 		}
 	}
 	phiHead := map[string]*Val{}
@@ -406,6 +468,7 @@ func (g *Gen) instr(ins ssa.Instruction) {
 		return
 	case *ssa.Go:
 		g.eng.onGo(g, x)
+		g.atPoint("go", "", x, x.Pos())
 	case *ssa.Send:
 		g.eng.onSend(g, x)
 	case *ssa.Range:
@@ -1014,6 +1077,11 @@ func (g *Gen) doReturn(x *ssa.Return) {
 		if len(x.Results) == 1 {
 			results["result"] = v
 		}
+		if isErrorType(sig.Results().At(i).Type()) {
+			if _, taken := results["err"]; !taken {
+				results["err"] = v
+			}
+		}
 	}
 	env := g.entryEnv()
 	for k, v := range results {
@@ -1090,6 +1158,9 @@ func (g *Gen) atPoint(kind, callee string, ins ssa.Instruction, pos token.Pos) {
 				case *ssa.Return:
 					g.pointCount[i] = cnt["return:"]
 					cnt["return:"]++
+				case *ssa.Go:
+					g.pointCount[i] = cnt["go:"]
+					cnt["go:"]++
 				case *ssa.Call:
 					if c := y.Common().StaticCallee(); c != nil {
 						g.pointCount[i] = cnt["call:"+c.Name()]
@@ -1120,6 +1191,15 @@ func (g *Gen) atPoint(kind, callee string, ins ssa.Instruction, pos token.Pos) {
 			}
 		case "mark":
 			g.marks[as.Name] = len(g.lines)
+		case "set":
+			if _, declared := g.ghost[as.Name]; !declared {
+				g.bindFail("set of undeclared ghost variable " + as.Name)
+				continue
+			}
+			v := g.specVal(env, as.C.E)
+			if v != nil {
+				g.ghost[as.Name] = g.def("gh_"+as.Name, g.ghostSortOf(as.Name), v.S[0])
+			}
 		case "ghost":
 			v := g.specVal(env, as.C.E)
 			if v != nil {
@@ -1154,6 +1234,9 @@ func (g *Gen) pointEnv(at ssa.Instruction) *Env {
 
 // resolveBefore finds the value of source variable `name` just after instruction at.
 func (g *Gen) resolveBefore(at ssa.Instruction, name string) *Val {
+	if v := g.allocNamed(at.Block(), at, name); v != nil {
+		return v
+	}
 	b := at.Block()
 	var best ssa.Value
 	bestAddr := false
@@ -1217,4 +1300,47 @@ func isConstLike(v ssa.Value) bool {
 		return true
 	}
 	return false
+}
+
+func isErrorType(t types.Type) bool {
+	n, ok := t.(*types.Named)
+	return ok && n.Obj().Pkg() == nil && n.Obj().Name() == "error"
+}
+
+// allocNamed: if source variable `name` lives in memory (an Alloc with that comment dominating the point,
+// the latest one), its current value is read from the heap.
+func (g *Gen) allocNamed(b *ssa.BasicBlock, at ssa.Instruction, name string) *Val {
+	var best *ssa.Alloc
+	bestKey := -1
+	for _, blk := range g.fn.Blocks {
+		same := blk == b
+		if !same && !blk.Dominates(b) {
+			continue
+		}
+		for i, ins := range blk.Instrs {
+			if same && at != nil && ins == at {
+				break
+			}
+			al, ok := ins.(*ssa.Alloc)
+			if !ok || al.Comment != name {
+				continue
+			}
+			if _, known := g.vals[al]; !known {
+				continue
+			}
+			key := blk.Index*100000 + i
+			if same {
+				key += 1 << 28
+			}
+			if key > bestKey {
+				best, bestKey = al, key
+			}
+		}
+	}
+	if best == nil {
+		return nil
+	}
+	v := g.val(best)
+	elem := best.Type().Underlying().(*types.Pointer).Elem()
+	return g.loadFrom(g.heap, elem, v.S[0], v.S[1])
 }
